@@ -391,6 +391,9 @@ class CreateSub(Transition):
         ex.assume(z3.And(a['ttl'] > 0, a['ttl'] < 2**55, a['message_ttl'] > 0, a['message_ttl'] < 2**55,
                          a['max_attempts'] >= 0, a['max_attempts'] < 2**31, (a['max_attempts'] != 0) == (a['dead_letter_topic'] != ''),
                          a['min_backoff'] > -2**55, a['min_backoff'] < 2**55, a['max_backoff'] > -2**55, a['max_backoff'] < 2**55))
+        # replayable counterexamples: the two durations at least a minute long and a minute apart (a mix-up of the two is then visible on the real clock)
+        ex.env.setdefault('small_model', []).extend([a['ttl'] >= 60 * 10**9, a['message_ttl'] >= 60 * 10**9,
+                                                      z3.Or(a['ttl'] - a['message_ttl'] >= 60 * 10**9, a['message_ttl'] - a['ttl'] >= 60 * 10**9)])
         return a
 
     def call(self, ex, db, a):
